@@ -435,3 +435,81 @@ def run(repo: Repo, ctx) -> None:
            'type references are not encoded as the referenced '
            'descriptor\'s position', trp.loc,
            sample='_uint16_packer(ctx.uuid_to_pos[type_id])')
+
+    _r5(repo, ctx)
+
+
+def _r5(repo: Repo, ctx) -> None:
+    """Kind-specific describers are reached only through the dispatcher that
+    selects them; element flags forced by the protocol."""
+    from ..absint import Facts, must_pass, open_nodes
+    from ..cfg import CFG
+    ctx.floor('C14.R5', 6)
+    m = repo.module(MOD)
+    funcs = {f.name: f for f in repo._funcs_of(m)
+             if f.name.startswith('_describe') and f.parent is None}
+    selected = {}     # leaf -> dispatcher
+    for name, f in funcs.items():
+        rets = [r.value for r in ast.walk(f.node) if isinstance(r, ast.Return)
+                and isinstance(r.value, ast.Call)
+                and (call_name(r.value) or '') in funcs
+                and call_name(r.value) != name]
+        tgt = {call_name(r) for r in rets}
+        if len(tgt) >= 2:
+            for t in tgt:
+                selected[t] = name
+    if len(selected) < 4:
+        raise AnalysisError(f'C14.R5: dispatchers not recognised '
+                            f'({selected})')
+    for f in repo._funcs_of(m):
+        for c in ast.walk(f.node):
+            if isinstance(c, ast.Call) and (call_name(c) or '') in selected:
+                leaf = call_name(c)
+                top = f
+                while top.parent is not None:
+                    top = top.parent
+                ok = top.name == selected[leaf]
+                ctx.ob('C14.R5', f'{top.name}:calls={leaf}', ok,
+                       f'{top.name} describes a type with the kind-specific '
+                       f'{leaf} directly instead of going through '
+                       f'{selected[leaf]}, which decides the kind: a nested '
+                       f'type of the other kind (a compound inside a '
+                       f'compound, an enum where a scalar is expected) is '
+                       f'described with the wrong descriptor', f.loc,
+                       sample=f'{leaf} only from {selected[leaf]}')
+    # element flags of an object shape
+    sh = repo.func(f'{MOD}._describe_object_shape')
+    g = CFG(sh.node)
+    impl = [n.id for n in g.nodes if n.kind == 'stmt' and isinstance(
+        n.ast, ast.AugAssign) and norm(n.ast.target) == 'flags'
+        and 'IS_IMPLICIT' in norm(n.ast.value)]
+    if not impl:
+        raise AnalysisError('C14.R5: IS_IMPLICIT flagging not found')
+    for fid, facts, want in (
+            ('__tid__-always-implicit',
+             {'el_name': '__tid__', 'implicit_id': False}, True),
+            ('__tid__-implicit-with-implicit-id',
+             {'el_name': '__tid__', 'implicit_id': True}, True),
+            ('explicit-id-not-implicit',
+             {'el_name': 'id', 'implicit_id': False}, False),
+            ('implicit-id-implicit',
+             {'el_name': 'id', 'implicit_id': True}, True),
+            ('other-element-not-implicit',
+             {'el_name': 'name', 'implicit_id': True}, False)):
+        F = Facts(facts, sh.node)
+        on = open_nodes(g, F)
+        reach = bool(set(impl) & on)
+        # decided means: the guarding test evaluated to a definite value
+        tests = [t for t in g.nodes if t.kind == 'test' and any(
+            g.edge_dominates(t.id, 'T', i) for i in impl)]
+        decided = all(F.eval(t.ast) is not None for t in tests) and tests
+        if not decided:
+            raise AnalysisError(f'C14.R5 {fid}: the IS_IMPLICIT guard is '
+                                f'not decided by (el_name, implicit_id) any '
+                                f'more')
+        ctx.ob('C14.R5', f'_describe_object_shape:{fid}', reach == want,
+               f'with {facts} the element is '
+               f'{"" if reach else "not "}flagged IS_IMPLICIT, expected '
+               f'{"flagged" if want else "not flagged"}: clients hide or '
+               f'show the injected id / __tid__ elements by this flag',
+               sh.loc, sample=f'{facts} -> implicit={want}')
